@@ -48,14 +48,15 @@ class Lock:
 
 def gen_consts():
     """the two translators: constants/tables and the structure codecs (field orders, types, size_in_bytes)"""
-    msgs = []; ok = True
+    msgs = []; ok = True; failed = []
     for tool, name in (('gen_consts.py', 'Consts.lean'), ('gen_codecs.py', 'Codecs.lean'), ('gen_fns.py', 'Fns.lean')):
         out = os.path.join(LEAN, 'Sucds', 'Gen', name)
         extra = ['--report', os.path.join(BUILD, 'gen_fns_report.json'), '--validate'] if tool == 'gen_fns.py' else []
         os.makedirs(BUILD, exist_ok=True)
         r = subprocess.run([sys.executable, os.path.join(ROOT, 'tools', tool), REPO, out] + extra, capture_output=True, text=True)
         ok = ok and r.returncode == 0; msgs.append((r.stdout + r.stderr).strip())
-    return ok, '; '.join(msgs)
+        if r.returncode != 0: failed.append(tool)
+    return ok, '; '.join(msgs), failed
 
 def theorems_of(module_file):
     """names of theorems declared in a Lean file, qualified by the enclosing namespaces"""
@@ -108,11 +109,15 @@ def lean_check(prop, tier='quick'):
     """build the property module and the driver, audit axioms. Returns dict(ok, failed, obligations, …)."""
     res = {'ok': True, 'errors': [], 'theorems': [], 'axioms': {}, 'obligations': 0, 'discharged': 0}
     with Lock('lake'):
-        ok, msg = gen_consts()
-        if not ok:
+        ok, msg, failed_tools = gen_consts()
+        # the codec translator concerns the properties about serialized bytes and sizes; when it refuses a source, the
+        # other properties keep the last generated Codecs.lean (their scripts still compare the real bytes with the model's)
+        CODEC_PROPS = {'C08', 'C13', 'C15', 'C19'}
+        if not ok and (failed_tools != ['gen_codecs.py'] or prop in CODEC_PROPS):
             # a source the translators do not understand: the theorems cannot be re-stated over it
             res['ok'] = False; res['errors'].append('translator: ' + msg); res['failed_modules'] = ['Sucds.Gen (translator)']
             res['obligations'] = 1; return res
+        if not ok: res['notes'] = ['codec translator refused the current sources (not this property\'s obligation): ' + msg[-300:]]
         mod = 'Sucds.Props.%s' % prop
         # theorems about the definitions generated from the function bodies (tools/gen_fns.py), when the property has them
         gen_mod = mod + 'Gen'
